@@ -24,11 +24,11 @@ PROPS["C14"] = {
         {
             "pkg": "primitives/h2c", "configs": ALL4,
             "tests": {
-                "TestC14ExpandXMD": T(6000, 400000),
+                "TestC14ExpandXMD": T(12000, 400000),
                 "FuzzC14ExpandXMD": FUZZ(60, configs=["default"]),
-                "TestC14ExpandXOF": T(3000, 200000),
-                "TestC14Suites": T(1600, 100000, shards={"quick": 4, "thorough": 16}),
-                "TestC14UniformToPoint": T(600, 40000, shards={"quick": 4, "thorough": 16}),
+                "TestC14ExpandXOF": T(6000, 200000),
+                "TestC14Suites": T(3200, 100000, shards={"quick": 4, "thorough": 16}),
+                "TestC14UniformToPoint": T(1200, 40000, shards={"quick": 4, "thorough": 16}),
                 "TestC14AbortBoundaries": LIST(),
                 "TestC14RFCInputs": LIST(),
             },
@@ -36,8 +36,8 @@ PROPS["C14"] = {
         {
             "pkg": "internal/elligator", "configs": ALL4,
             "tests": {
-                "TestC14Map": T(3000, 200000, shards={"quick": 4, "thorough": 16}),
-                "TestC14SetEdwardsFromXY": T(1500, 60000),
+                "TestC14Map": T(6000, 200000, shards={"quick": 4, "thorough": 16}),
+                "TestC14SetEdwardsFromXY": T(3000, 60000),
                 "TestC14MapSpecial": LIST(),
             },
         },
